@@ -27,6 +27,31 @@ func scenarioC17(rc *RunCtx) *Violation {
 		o.EntryNames = []int{0, 1, 6}[g.n(3)] // hash-free names
 		o.AssetNames = []int{2, 3, 0}[g.n(3)]
 	}
+	if g.n(5) == 0 {
+		// profile: several entry points linked separately (no splitting), where the output of
+		// one entry point (x.ts -> x.js) lands exactly on a hand-written x.js that only another
+		// entry point imports (with the extension written out)
+		var t *Module
+		for _, m := range p.Mods {
+			for i := range m.Imports {
+				if im := &m.Imports[i]; im.Target > 0 && p.Mods[im.Target].Kind == "js" && !p.Mods[im.Target].Deleted && !entryOf(p, im.Target) && !isDynamic(im.Style) && t == nil && entryOf(p, m.ID) {
+					t = p.Mods[im.Target]
+					im.Spec = "ext"
+				}
+			}
+		}
+		if t != nil {
+			sp := strings.TrimSuffix(t.Path, ".js") + ".ts"
+			v, f := expNames(t)
+			p.Extra[sp] = fmt.Sprintf("console.log(\"TWINENTRY%d\");\nexport const %s: any = ['ts'];\nexport function %s(o: any) { return o }\nexport default 0;\n", t.ID, v, f)
+			p.ExtraEntries = append(p.ExtraEntries, sp)
+			o.Bundle = true
+			o.Splitting = false
+			o.Outdir, o.Outbase, o.OutExt = 4, 2, 0 // out directory = project root, outbase = root: src/x.ts -> src/x.js
+			o.EntryNames = []int{0, 1}[g.n(2)]
+			rc.Probe("profile_ts_entry_lands_on_js_input")
+		}
+	}
 	if o.Inject {
 		p.Extra["src/inject.js"] = "export let injected = 'INJ';\nconsole.log('inject');\n"
 	}
